@@ -2,6 +2,7 @@ package checks
 
 import (
 	"bytes"
+	"encoding/json"
 	"crypto/sha256"
 	"encoding/base64"
 	"encoding/binary"
@@ -12,6 +13,7 @@ import (
 
 	"github.com/btcsuite/btcutil/base58"
 	tmsecp "github.com/cometbft/cometbft/crypto/secp256k1"
+	"github.com/cosmos/cosmos-sdk/codec"
 	sdk "github.com/cosmos/cosmos-sdk/types"
 	"github.com/cosmos/cosmos-sdk/x/authz"
 	didtypes "github.com/medibloc/panacea-core/v2/x/did/types"
@@ -273,7 +275,20 @@ func (e *didEnv) sign(content *didtypes.DIDDocument, seq uint64, k int) []byte {
 	return sig
 }
 
+// bulkDIDs: n live filler DIDs whose ids sort before every DID of the alphabet (more than one default page of 100).
+func bulkDIDs(e *didEnv, n int) map[string]*didtypes.DIDDocumentWithSeq {
+	out := map[string]*didtypes.DIDDocumentWithSeq{}
+	for i := 0; i < n; i++ {
+		did := fmt.Sprintf("did:panacea:1111111111111111111111111111%04d", i+1000) // '0' is not base58: digits 1-9 only below
+		did = strings.NewReplacer("0", "A").Replace(did)
+		doc := e.doc("D1", did)
+		out[did] = &didtypes.DIDDocumentWithSeq{Document: doc, Sequence: uint64(i % 3)}
+	}
+	return out
+}
+
 type didVariant struct {
+	Bulk     int // genesis-injected filler DIDs
 	ID       string
 	Replays  bool // C04: Replay(i) ops
 	EmptyID  bool // C04/C05: create with an empty-id document
@@ -536,7 +551,18 @@ func didSystem(v didVariant) *explore.System {
 		Ops:    didOps(env, v),
 		Clone:  func(m any) any { return m.(*didModel).clone() },
 		Fresh: func() (*world.World, any) {
-			return world.New(world.Options{Accounts: []*world.Account{env.R1, env.R2}}), newDidModel()
+			opts := world.Options{Accounts: []*world.Account{env.R1, env.R2}}
+			m := newDidModel()
+			if v.Bulk > 0 {
+				fill := bulkDIDs(env, v.Bulk)
+				opts.Mutate = func(gs map[string]json.RawMessage, cdc codec.Codec) {
+					gs["did"] = cdc.MustMarshalJSON(&didtypes.GenesisState{Documents: fill})
+				}
+				for did, d := range fill {
+					m.Entries[did] = &didEntry{Doc: d.Document, Seq: d.Sequence}
+				}
+			}
+			return world.New(opts), m
 		},
 	}
 	withHistory := v.Replays || v.Mismatch
@@ -759,7 +785,15 @@ func C05(t Tier) int {
 		bounds = []explore.Bounds{{Depth: 3, V: 2, Deadline: dl}, {Depth: 4, V: 2, Deadline: dl}, {Depth: 5, V: 2, Deadline: dl}, {Depth: 5, V: 3, Deadline: dl}}
 	}
 	RunGraph(run, sys, bounds, 6)
-	run.Assumptions = append(didAssumptions, "V>=2 places a restart and an export/import after every deactivation reachable within the depth bound")
+	// second initial state: 120 live DIDs already exist (more than one default page of any paginated listing), all sorting
+	// before d1/d2, so that a tombstone written now is the last entry of the store when genesis is exported
+	st, tr := run.Coverage["states"].(int), run.Coverage["transitions"].(int64)
+	bulk := didSystem(didVariant{ID: "C05/bulk", Bulk: 120, Small: true, Ctl: []string{"XI", "RS"}})
+	RunGraph(run, bulk, []explore.Bounds{{Depth: 2, V: 1, Deadline: dl}}, 4)
+	run.Coverage["states"] = st + run.Coverage["states"].(int)
+	run.Coverage["transitions"] = tr + run.Coverage["transitions"].(int64)
+	run.Assumptions = append(didAssumptions, "V>=2 places a restart and an export/import after every deactivation reachable within the depth bound",
+		"a second run starts from a genesis with 120 live DIDs and explores depth 2 + one export/import or restart")
 	return run.Finish()
 }
 
